@@ -247,6 +247,42 @@ theorem MInv.step_compute {w : MWorld} (h : MInv w) : MInv (w.step .compute) := 
       · exact h.ref e'' he'' b hb
     · exact cur_modify _ _ _ h.cur
 
+/-- assigning widths changes nothing but the `width` field of existing nodes -/
+theorem setWidths_fold : ∀ (ps : List (Nat × Rat)) (s : Store),
+    (ps.foldl (fun s p => set s p.1 { get s p.1 with width := p.2 }) s).size = s.size ∧
+    ∀ j, (get (ps.foldl (fun s p => set s p.1 { get s p.1 with width := p.2 }) s) j).data = (get s j).data ∧
+      (get (ps.foldl (fun s p => set s p.1 { get s p.1 with width := p.2 }) s) j).child = (get s j).child ∧
+      (get (ps.foldl (fun s p => set s p.1 { get s p.1 with width := p.2 }) s) j).parent = (get s j).parent ∧
+      (get (ps.foldl (fun s p => set s p.1 { get s p.1 with width := p.2 }) s) j).ideal = (get s j).ideal ∧
+      (get (ps.foldl (fun s p => set s p.1 { get s p.1 with width := p.2 }) s) j).cur = (get s j).cur ∧
+      (get (ps.foldl (fun s p => set s p.1 { get s p.1 with width := p.2 }) s) j).layerIndex = (get s j).layerIndex := by
+  intro ps
+  induction ps with
+  | nil => intro s; exact ⟨rfl, fun _ => ⟨rfl, rfl, rfl, rfl, rfl, rfl⟩⟩
+  | cons p rest ih =>
+    intro s
+    rw [List.foldl_cons]
+    obtain ⟨hs, hj⟩ := ih (set s p.1 { get s p.1 with width := p.2 })
+    refine ⟨by rw [hs, size_set], fun j => ?_⟩
+    obtain ⟨h1, h2, h3, h4, h5, h6⟩ := hj j
+    exact ⟨h1.trans (get_set_field N.data s p.1 j _ rfl), h2.trans (get_set_field N.child s p.1 j _ rfl),
+      h3.trans (get_set_field N.parent s p.1 j _ rfl), h4.trans (get_set_field N.ideal s p.1 j _ rfl),
+      h5.trans (get_set_field N.cur s p.1 j _ rfl), h6.trans (get_set_field N.layerIndex s p.1 j _ rfl)⟩
+
+theorem MInv.step_setWidths {w : MWorld} (h : MInv w) (b : Nat) (ws : List Rat) : MInv (w.step (.setWidths b ws)) := by
+  simp only [MWorld.step]
+  cases hc : w.created[b]? with
+  | none => exact h
+  | some ids =>
+    simp only
+    obtain ⟨hs, hj⟩ := setWidths_fold (ids.zip ws) w.store
+    refine ⟨h.len, ?_, h.perm, ?_, h.ref, h.cur⟩
+    · intro b' c hc'
+      have g := h.good b' c hc'
+      exact ⟨fun i hi => by rw [hs]; exact g.lt i hi, g.nodup, fun i hi => ((hj i).2.1).trans (g.label i hi)⟩
+    · intro b' c hc' i hi
+      exact ((hj i).1).trans (h.data b' c hc' i hi)
+
 theorem MInv.step {w : MWorld} (h : MInv w) (op : MOp) : MInv (w.step op) := by
   cases op with
   | newEngine o =>
@@ -275,6 +311,7 @@ theorem MInv.step {w : MWorld} (h : MInv w) (op : MOp) : MInv (w.step op) := by
     · next hb => exact h.set_ref b hb _ (fun _ => rfl)
     · exact h
   | compute => exact h.step_compute
+  | setWidths b ws => exact h.step_setWidths b ws
 
 theorem mworld_inv (ops : List MOp) : MInv (MWorld.run ops) := by
   unfold MWorld.run
@@ -416,6 +453,11 @@ theorem MWorld.outs_nil_of_no_engine (ops : List MOp) (h : (MWorld.run ops).engi
           have := hmod _ _ _ hc
           rw [this] at he
           cases he
+      | setWidths b ws =>
+        simp only [MWorld.step]
+        cases hc : w.created[b]? with
+        | none => exact hw
+        | some ids => exact hw
   exact key ops MWorld.init (fun _ => rfl) h
 
 end Labella.EngineT
